@@ -930,6 +930,7 @@ def r_verb(ctx, floor_funcs=0):
             if isinstance(n, ast.Name) and n.id in monitors and isinstance(n.ctx, ast.Load):
                 if not _inside_verbose_region(f.node, n, vnames) and not _is_alias_binding(f.node, n, monitors):
                     bad.append((n.lineno, 'the Monitor instance is used outside a verbose region'))
+        bad.extend(_read_after_delete(f, vnames))
         run.check(not bad, 'R-VERB', f, 'verbose-neutral', bad[0][0] if bad else f.node.lineno,
                   'verbose only guards print / monitor calls or is passed down',
                   'turning verbose on changes more than the output in %s: %s' % (f.name, '; '.join('line %d: %s' % b for b in bad[:3])),
@@ -938,6 +939,74 @@ def r_verb(ctx, floor_funcs=0):
     run.notes.append('R-VERB: %d functions, %d guarded regions, %d pass-down arguments' % (nf, nreg, npass))
     # Monitor.__call__ must not raise explicitly and only writes its own timer
     return nf, nreg, npass
+
+
+def _read_after_delete(f, vnames):
+    """a progress call that reads X[k] on a path on which `del X[k]` (or X.pop(k)) has run raises KeyError with verbose on.
+    Only unguarded reads: a read under a test that mentions X is left alone."""
+    out = []
+    dels = []
+    for nd in f.nodes:
+        st = nd.stmt
+        if isinstance(st, ast.Delete):
+            for t in st.targets:
+                if isinstance(t, ast.Subscript) and isinstance(t.value, ast.Name) and not isinstance(t.slice, ast.Slice):
+                    dels.append((nd, t.value.id, ast.dump(t.slice)))
+        elif isinstance(st, ast.Expr) and isinstance(st.value, ast.Call) and isinstance(st.value.func, ast.Attribute) and \
+                st.value.func.attr == 'pop' and isinstance(st.value.func.value, ast.Name) and len(st.value.args) == 1:
+            dels.append((nd, st.value.func.value.id, ast.dump(st.value.args[0])))
+    if not dels:
+        return out
+
+    def guards_of(target, tree, acc):
+        for n in ast.iter_child_nodes(tree):
+            if n is target:
+                return acc
+            if isinstance(n, ast.If):
+                r = guards_of(target, n, acc + [n.test])
+            else:
+                r = guards_of(target, n, acc)
+            if r is not None:
+                return r
+        return None
+    for nd in f.nodes:
+        st = nd.stmt
+        if not (isinstance(st, ast.Expr) and isinstance(st.value, ast.Call)):
+            continue
+        gs = guards_of(st, f.node, [])
+        if gs is None or not any(_mentions(t, v) for t in gs for v in vnames):
+            continue
+        for x in ast.walk(st):
+            if isinstance(x, ast.Subscript) and isinstance(x.ctx, ast.Load) and isinstance(x.value, ast.Name):
+                for dn, name, key in dels:
+                    if name != x.value.id or key != ast.dump(x.slice):
+                        continue
+                    if any(_mentions(t, name) for t in gs):
+                        continue
+                    # a path from the deletion to the read on which X[k] is not stored again and k is not rebound
+                    keynames = {n.id for n in ast.walk(x.slice) if isinstance(n, ast.Name)}
+                    seen, todo, hit = set(), list(dn.succ), False
+                    while todo:
+                        i = todo.pop()
+                        if i in seen:
+                            continue
+                        seen.add(i)
+                        m = f.nodes[i]
+                        if m is nd:
+                            hit = True
+                            break
+                        ms = m.stmt
+                        if isinstance(ms, (ast.Assign, ast.AugAssign, ast.For)):
+                            tg = ms.targets if isinstance(ms, ast.Assign) else [ms.target]
+                            if any((isinstance(n_, ast.Name) and (n_.id in keynames or n_.id == name)) or
+                                   (isinstance(n_, ast.Subscript) and isinstance(n_.value, ast.Name) and n_.value.id == name)
+                                   for t_ in tg for n_ in ast.walk(t_) if isinstance(getattr(n_, 'ctx', None), ast.Store) or n_ is t_):
+                                continue
+                        todo.extend(m.succ)
+                    if hit:
+                        out.append((st.lineno, 'the progress call reads %s after `%s` at line %d may have removed that entry: KeyError '
+                                    'only when verbose is on' % (ast.unparse(x)[:40], ast.unparse(dn.stmt)[:40], dn.lineno)))
+    return out
 
 
 def _is_monitor_ctor(f, d):
